@@ -140,10 +140,11 @@ def listener_class(mods, overrides=('before', 'iter', 'stop')):
 
     def __init__(self):
         self.events = []
+        self.clock = None
     ns['__init__'] = __init__
     if 'before' in overrides:
         def BeforeMethodStart(self, method):
-            self.events.append(('before', None, None))
+            self.events.append(('before', self.clock() if self.clock else None, None))
         ns['BeforeMethodStart'] = BeforeMethodStart
     if 'iter' in overrides:
         def OnEndIteration(self, points, solution):
@@ -561,7 +562,7 @@ def prefix_function(seed, N):
     """A deterministic smooth/flat/stepped objective chosen by `seed` (floats in, float out)."""
     import random
     rnd = random.Random(1000 + seed)
-    kind = seed % 5
+    kind = seed % 7
     a = [rnd.uniform(0.5, 2.0) for _ in range(N)]
     b = [rnd.uniform(1.0, 6.0) for _ in range(N)]
     c = [rnd.uniform(0.0, 3.0) for _ in range(N)]
@@ -569,6 +570,10 @@ def prefix_function(seed, N):
 
     def smooth(ys):
         return sum(a[i] * math.sin(b[i] * ys[i] + c[i]) + d[i] * ys[i] * ys[i] for i in range(N))
+    if kind == 5:       # decreasing towards the upper corner (the optimum sits on the boundary of the box)
+        return lambda ys: -sum(a[i] * ys[i] for i in range(N))
+    if kind == 6:       # decreasing towards the lower corner
+        return lambda ys: sum(a[i] * ys[i] for i in range(N))
     if kind == 3:       # flat: every value equal (ties everywhere)
         return lambda ys: 1.25
     if kind == 4:       # stepped: few distinct values (ties with the optimum, plateaus)
@@ -743,6 +748,29 @@ NBOXES = {1: ([-1.5], [2.5]), 2: ([-0.5, 1.0], [1.5, 4.0]), 3: ([0.0, -1.0, 2.0]
           4: ([0.0, -1.0, 2.0, -3.0], [1.0, 3.0, 2.5, 3.0]), 5: ([0.0, -1.0, 2.0, -3.0, 1.0], [1.0, 3.0, 2.5, 3.0, 9.0])}
 
 
+def _refine_default(cfg, g, N, lower, upper):
+    """values of points the symbolic run never saw (the real Nelder-Mead evaluates many): a linear function decreasing towards
+    the first arbitrary point of the minimize stub that lies outside the box (else towards its first point)"""
+    scripts = [cfg.get('script', [])] + [v.get('script', []) for v in cfg.get('variants', [])]
+    if not (cfg.get('refine') or any(st[0] == 'refine' for sc in scripts for st in sc)):
+        return None
+    target = [g('nm0_%d' % c, None) for c in range(N)]
+    for j in range(3):
+        cand = [g('nm%d_%d' % (j, c), None) for c in range(N)]
+        if all(v is not None for v in cand) and any(not (lower[c] <= cand[c] <= upper[c]) for c in range(N)):
+            target = cand
+            break
+    if not all(v is not None for v in target):
+        target = [upper[c] + 1.0 for c in range(N)]
+    centre = [(lower[c] + upper[c]) / 2 for c in range(N)]
+    dirn = [target[c] - centre[c] for c in range(N)]
+    nrm = max(1e-9, sum(d * d for d in dirn) ** 0.5)
+
+    def refine_default(ys):
+        return -1000.0 - 50.0 * sum((float(ys[c]) - centre[c]) * dirn[c] / nrm for c in range(N))
+    return refine_default
+
+
 def native_main(a):
     """Native confirmation of a solver counterexample.  a: dict (level, want, N, model, ...).  Returns the list of violated
     clause labels (empty = the violation does not reproduce)."""
@@ -821,15 +849,20 @@ def native_main(a):
             kpre = cfg.get('kpre', 0)
             zs = [g('z%d' % j, 0.0) for j in range(cfg.get('nsym', 8))]
             memo = {}
+            pre = {}
+            rdef = _refine_default(cfg, g, N, lower, upper)
 
             def factory():
                 def obj(ys, i):
-                    if i < kpre:
-                        return f([float(y) for y in ys])
                     key = tuple(round(float(y), 12) for y in ys)
+                    if i < kpre:
+                        pre[key] = f([float(y) for y in ys])
+                        return pre[key]
+                    if key in pre:
+                        return pre[key]
                     if key not in memo:
                         j = len(memo)
-                        memo[key] = zs[j] if j < len(zs) else 0.0
+                        memo[key] = zs[j] if j < len(zs) else (rdef(ys) if rdef else 0.0)
                     return memo[key]
                 return obj
             import io
@@ -876,23 +909,31 @@ def native_main(a):
             kpre = cfg.get('kpre', 0)
             zs = [g('z%d' % j, 0.0) for j in range(cfg.get('nsym', 8))]
             memo = {}
+            pre = {}
+            refine_default = _refine_default(cfg, g, N, lower, upper)
             fail = cfg.get('fail')
 
             def obj(ys, i):
                 if fail and i == fail[0]:
                     raise EXC_TYPES[fail[1]]()
-                if i < kpre:
-                    return f([float(y) for y in ys])
                 key = tuple(round(float(y), 12) for y in ys)
+                if i < kpre:
+                    pre[key] = f([float(y) for y in ys])
+                    return pre[key]
+                if key in pre:
+                    return pre[key]
                 if key not in memo:
                     j = len(memo)
-                    memo[key] = zs[j] if j < len(zs) else 0.0
+                    memo[key] = zs[j] if j < len(zs) else (refine_default(ys) if refine_default else 0.0)
                 return memo[key]
             import io
             import contextlib
             buf = io.StringIO()
             with contextlib.redirect_stdout(buf):
                 ctx = run_scenario(mods, cfg, obj, cfg['r'], g('eps', cfg.get('eps_value', 1e-9)) if cfg.get('eps') == 'sym' else cfg.get('eps', 1e-9))
+            if a.get('native_extra_refine') and (cfg.get('refine') or any(st[0] == 'refine' for st in cfg['script'])):
+                with contextlib.redirect_stdout(buf):
+                    ctx['solver'].DoLocalRefinement(a['native_extra_refine'])
             ctx['prints'] = buf.getvalue().splitlines()
             cl = scenario_clauses(mods, ctx, want)
             if a.get('extra_clauses'):
@@ -970,7 +1011,7 @@ def run_scenario(mods, cfg, objective, r, eps, prints=None, after_create=None):
         lo2 = [v - 1.25 for v in NBOXES[N2][0]]
         up2 = [v + 0.5 for v in NBOXES[N2][1]]
         f2 = prefix_function(cfg.get('seed', 0) + 1, N2)
-        p2 = P(N2, lo2, up2, lambda ys, i: f2([float(y) for y in ys]))
+        p2 = P(N2, lo2, up2, lambda ys, i: f2([y if not concrete(y) else float(y) for y in ys]))
         sib = make_solver(mods, p2, 3.0, 1e-9, 12, density=cfg.get('density'), refine=cfg.get('refine', False))
         ctx['sibling'] = sib
     if after_create is not None:
@@ -978,6 +1019,7 @@ def run_scenario(mods, cfg, objective, r, eps, prints=None, after_create=None):
     L = None
     if cfg.get('overrides') is not None:
         L = listener_class(mods, tuple(cfg['overrides']))()
+        L.clock = lambda: len(prob.started)
         s.AddListener(L)
     ctx['listener'] = L
     if cfg.get('console'):
@@ -1100,6 +1142,33 @@ def fault_clauses(mods, ctx, want):
     return out
 
 
+def box_clauses(mods, ctx, want):
+    """C05: every evaluation (global phase and refinement) and the returned point lie inside the box; refinement never worsens
+    and reports the objective at the point it returns."""
+    out = []
+    prob, s = ctx['prob'], ctx['solver']
+    lower, upper = ctx['lower'], ctx['upper']
+    for i, ys in enumerate(prob.started):
+        out.append(('C05 EVALBOX: evaluation %d lies inside [lower, upper] in every coordinate' % (i + 1),
+                    AND(*[AND(LE(lower[c], ys[c]), LE(ys[c], upper[c])) for c in range(len(ys))])))
+    sol = snapshot_solution(s.GetResults())
+    bp = sol['best_point']
+    if bp is not None and prob.done:
+        out.append(('C05 RESBOX: the returned solution point lies inside the box',
+                    AND(*[AND(LE(lower[c], bp[c]), LE(bp[c], upper[c])) for c in range(len(bp))])))
+    ng = sol['trials']
+    if sol['local_trials'] and concrete(ng) and 0 < ng <= len(prob.done):
+        gbest = None
+        for (pt, v) in prob.done[:ng]:
+            if gbest is None or bool_of(LT(v, gbest)):
+                gbest = v
+        out.append(('C05 NOWORSE: refinement never returns a value worse than the best global-phase trial', LE(sol['best_value'], gbest)))
+        out += [('C05 ' + l, c) for l, c in optimum_clauses(sol, prob.done, 'after refinement') if l.startswith('BEST-EVALUATED') or l.startswith('BEST-VALUE')]
+        out.append(('C05 LOCALCOUNT: the reported number of local trials is the number of refinement evaluations (the final re-evaluation aside)',
+                    EQ(sol['local_trials'], len(prob.done) - ng - 1)))
+    return out
+
+
 def scenario_clauses(mods, ctx, want):
     s, prob, L, N, r = ctx['solver'], ctx['prob'], ctx['listener'], ctx['N'], ctx['r']
     Ev = mods.evolvent.Evolvent
@@ -1124,6 +1193,8 @@ def scenario_clauses(mods, ctx, want):
             out.append(('C03 NOEXC: no internal exception is swallowed during Solve', not any('Exception was thrown' in p for p in ctx['prints'])))
     if 'C16' in want:
         out += fault_clauses(mods, ctx, want)
+    if 'C05' in want:
+        out += box_clauses(mods, ctx, want)
     if 'C04' in want:
         for (kind, sol, snap, n0, n1) in ctx['returned']:
             if kind == 'solve' and not cfg.get('refine'):
@@ -1231,4 +1302,82 @@ def isolation_clauses(mods, ctxs, want):
             hs = sib.problem.done
             out.append(('C12 OTHER: the other solver makes the same trials as when it runs alone',
                         AND(len(hs) == len(sib_ref[1]), *[AND(EQ(a[1], b[1]), *[EQ(p, q) for p, q in zip(a[0], b[0])]) for a, b in zip(hs, sib_ref[1])])))
+    return out
+
+
+def console_expected(sol_snap, N):
+    """the lines ConsoleOutputer.printResult must contain for this solution (same format calls as a user would read)"""
+    w = 20 * N
+    return [
+        "|{:>29} {:<{width}}|".format("global iteration count: ", sol_snap['trials'], width=w),
+        "|{:>29} {:<{width}}|".format("local iteration count: ", sol_snap['local_trials'], width=w),
+        "|{:>29} {:<{width}}|".format("solution point: ", str(sol_snap['best_point_obj']), width=w),
+        "|{:>29} {:<{width}.8f}|".format("solution value: ", sol_snap['best_value'], width=w),
+        "|{:>29} {:<{width}.8f}|".format("accuracy: ", sol_snap['accuracy'], width=w),
+    ]
+
+
+def listener_clauses(mods, ctxs, want):
+    """C13.  ctxs[0] = reference without listeners; the others carry a recording listener (subset of callbacks overridden)
+    and / or the shipped console listener."""
+    out = []
+    ref = ctxs[0]
+    href = ref['prob'].done
+    for ctx in ctxs[1:]:
+        cfg = ctx['cfg']
+        h = ctx['prob'].done
+        name = 'overrides=%s console=%s' % (','.join(cfg.get('overrides') or []) or '-', cfg.get('console'))
+        out.append(('C13 SAME-LENGTH: attaching listeners does not change the number of trials [%s]' % name, len(h) == len(href)))
+        for i in range(min(len(h), len(href))):
+            out.append(('C13 SAME-TRIALS: attaching listeners does not change trial %d' % (i + 1),
+                        AND(EQ(h[i][1], href[i][1]), *[EQ(a, b) for a, b in zip(h[i][0], href[i][0])])))
+        for (ka, sa, snap_a, _, _), (kb, sb, snap_b, _, _) in zip(ctx['returned'], ref['returned']):
+            out.append(('C13 SAME-RESULT: attaching listeners does not change the result',
+                        AND(EQ(snap_a['best_value'], snap_b['best_value']), snap_a['trials'] == snap_b['trials'],
+                            EQ(snap_a['local_trials'], snap_b['local_trials']), EQ(snap_a['accuracy'], snap_b['accuracy']),
+                            *[EQ(p, q) for p, q in zip(snap_a['best_point'] or [], snap_b['best_point'] or [])])))
+        L = ctx['listener']
+        if L is not None:
+            ov = cfg['overrides']
+            ev = L.events
+            n_calls = sum(1 for st in cfg['script'] if st[0] == 'iter')
+            solves = [x for x in ctx['returned'] if x[0] == 'solve']
+            if 'before' in ov:
+                b = [e for e in ev if e[0] == 'before']
+                out.append(('C13 BEFORE: told exactly once, before the first trial', len(b) == 1 and ev[0][0] == 'before' and b[0][1] == 0))
+            else:
+                out.append(('C13 BEFORE: a callback that is not overridden records nothing', not any(e[0] == 'before' for e in ev)))
+            if 'iter' in ov:
+                its = [e for e in ev if e[0] == 'iter']
+                # one notification per DoGlobalIteration call: the scripted batches, then one per iteration of the Solve loop
+                sizes = [st[1] for st in cfg['script'] if st[0] == 'iter']
+                done_in_batches = sum(sizes)
+                n_total = ctx['solver'].GetResults().numberOfGlobalTrials     # refinement evaluations are not iterations
+                exp_sizes = sizes + [1] * max(0, n_total - done_in_batches)
+                out.append(('C13 ITER-COUNT: one OnEndIteration per DoGlobalIteration call with exactly the new trials of that call',
+                            [len(e[1]) for e in its] == exp_sizes))
+                off = 0
+                for e in its:
+                    for p in e[1]:
+                        if off < len(h):
+                            out.append(('C13 ITER-TRIALS: the notified trials are the new trials, in order',
+                                        AND(EQ(p[1], h[off][1]), *[EQ(a, b) for a, b in zip(p[2], h[off][0])])))
+                        off += 1
+            if 'stop' in ov:
+                st = [e for e in ev if e[0] == 'stop']
+                out.append(('C13 STOP: told once per Solve, after the last trial', len(st) == len(solves) and (not st or ev[-1][0] == 'stop')))
+                for e, sv in zip(st, solves):
+                    a, b = e[2], snapshot_solution(sv[1])
+                    out.append(('C13 STOP-SOLUTION: OnMethodStop receives the final solution',
+                                AND(EQ(a['best_value'], b['best_value']), a['trials'] == b['trials'],
+                                    *[EQ(p, q) for p, q in zip(a['best_point'] or [], b['best_point'] or [])])))
+        if cfg.get('console') and ctx.get('prints') is not None:
+            solves = [x for x in ctx['returned'] if x[0] == 'solve']
+            if solves:
+                snap = snapshot_solution(solves[-1][1])
+                snap['best_point_obj'] = solves[-1][1].bestTrials[0].point.floatVariables
+                text = list(ctx['prints'])
+                for line in console_expected(snap, ctx['N']):
+                    out.append(('C13 CONSOLE: the final report shows the solution\'s trial counts, point, value and accuracy (mode %s)' % cfg['console'],
+                                any(line in p for p in text)))
     return out
